@@ -517,13 +517,24 @@ func (w *world) evDeliver(i, j int) {
 
 // notification-driven schedule, as the real protocol runs: a router fetches a neighbour's advertisement only when
 // that neighbour announced a change; run until nobody has anything left to fetch
-func (w *world) quiesce() {
+func (w *world) quiesce() { w.quiesceLast(-1) }
+
+// lazy >= 0: that router is slow — it fetches only when nobody else has anything left to fetch
+func (w *world) quiesceLast(lazy int) {
 	for steps := 0; ; steps++ {
 		ps := [][2]int{}
+		slow := [][2]int{}
 		for p := range w.need {
 			if w.rt[p[0]] != nil && w.rt[p[1]] != nil && w.nbr[p[0]][p[1]] {
-				ps = append(ps, p)
+				if p[0] == lazy {
+					slow = append(slow, p)
+				} else {
+					ps = append(ps, p)
+				}
 			}
+		}
+		if len(ps) == 0 {
+			ps = slow
 		}
 		if len(ps) == 0 {
 			break
@@ -902,7 +913,11 @@ func (w *world) detectAll() {
 func (w *world) converge(clean bool) {
 	w.detectAll()
 	if !clean && w.r.Intn(4) != 0 {
-		w.quiesce()
+		lazy := -1
+		if w.r.Intn(2) == 0 {
+			lazy = w.r.Intn(w.n) // one router is slow to fetch: it sees only the settled advertisements
+		}
+		w.quiesceLast(lazy)
 	}
 	md := w.maxDist()
 	rounds := 16 + md + 1
@@ -1189,6 +1204,65 @@ func TestTrace(t *testing.T) {
 			fmt.Fprintf(out, "harnessfail %d %s\n", k, msg)
 		}
 		k++
+	}
+	if g := os.Getenv("VERIF_GRAPH"); g != "" {
+		// scripted case (used to produce corpus histories): "n:a-b,c-d,..." ; after bring-up and convergence router
+		// VERIF_LOSE disappears, its neighbours notice, and the notification-driven schedule runs to quiescence
+		var nn int
+		var es string
+		fmt.Sscanf(g, "%d:%s", &nn, &es)
+		edges := [][2]int{}
+		for _, e := range strings.Split(es, ",") {
+			var a, b int
+			fmt.Sscanf(e, "%d-%d", &a, &b)
+			edges = append(edges, [2]int{a, b})
+		}
+		lose, _ := strconv.Atoi(os.Getenv("VERIF_LOSE"))
+		synctest.Test(t, func(t *testing.T) {
+			w := &world{t: t, w: out, r: r, n: nn, byHash: map[uint64]int{}, slots: map[int]snapshot{}, pending: map[[2]int]bool{}, need: map[[2]int]bool{}, mseq: map[[2]int]uint64{}, held: map[int]snapshot{}}
+			for i := 0; i < nn; i++ {
+				nm, _ := enc.NameFromStr(fmt.Sprintf("/net/s%d", i))
+				w.byHash[nm.Hash()] = i
+				w.names = append(w.names, nm)
+				w.hash = append(w.hash, nm.Hash())
+			}
+			w.rt = make([]*dvp.Router, nn)
+			w.nbr = make([]map[int]bool, nn)
+			w.seq = make([]uint64, nn)
+			for i := range w.nbr {
+				w.nbr[i] = map[int]bool{}
+			}
+			fmt.Fprintf(out, "case 0 script n=%d edges=%d\n", nn, len(edges))
+			for i := range w.hash {
+				fmt.Fprintf(out, "node n%d %s %s\n", i, u(w.hash[i]), w.names[i].String())
+			}
+			for i := 0; i < nn; i++ {
+				w.evRup(i)
+			}
+			for _, e := range edges {
+				w.evUp(e[0], e[1])
+				w.evUp(e[1], e[0])
+			}
+			w.quiesce()
+			w.evRdown(lose)
+			for i := 0; i < nn; i++ {
+				if w.rt[i] != nil && w.nbr[i][lose] {
+					w.evDead(i, lose)
+				}
+			}
+			lazy := -1
+			if v := os.Getenv("VERIF_LAZY"); v != "" {
+				lazy, _ = strconv.Atoi(v)
+			}
+			w.quiesceLast(lazy)
+			fmt.Fprintf(out, "end\n")
+			for i := range w.rt {
+				if w.rt[i] != nil {
+					w.rt[i].Vf18StopNfdc()
+				}
+			}
+		})
+		return
 	}
 	if exhaustive {
 		for nn := 2; nn <= 5; nn++ {
